@@ -485,4 +485,5 @@ def run(chk):
     redirect_set(chk, prog, st)
     shared.nothing_after_body(chk, prog, "R6")
     shared.response_reads(chk, prog, "R7.reads")
+    shared.response_framing_by_headers(chk, prog, "R7.framing")
     shared.header_line_split(chk, prog, "R7.header_split", "humphrey::http::response::Response::from_stream")
